@@ -443,13 +443,21 @@ namespace cds { namespace intrusive {
                     m_bLocked = nCell != lock_array_type::c_nUnspecifiedCell;
                     if ( m_bLocked ) {
                         m_guard[0] = &(policy.m_Locks[0].at(nCell));
+                        // The caller already holds the locks of another cell set, so blocking here
+                        // can deadlock with a thread that locks the same cells in the opposite order
                         for ( unsigned int i = 1; i < c_nArity; ++i ) {
-                            m_guard[i] = &( policy.m_Locks[i].at( policy.m_Locks[i].lock( arrHash[i] )));
+                            nCell = policy.m_Locks[i].try_lock( arrHash[i] );
+                            if ( nCell == lock_array_type::c_nUnspecifiedCell ) {
+                                for ( unsigned int j = 0; j < i; ++j )
+                                    m_guard[j]->unlock();
+                                m_bLocked = false;
+                                break;
+                            }
+                            m_guard[i] = &( policy.m_Locks[i].at( nCell ));
                         }
                     }
-                    else {
+                    if ( !m_bLocked )
                         std::fill( m_guard, m_guard + c_nArity, nullptr );
-                    }
                     policy.m_Stat.onCellTryLock();
                 }
                 ~scoped_cell_trylock()
@@ -757,8 +765,17 @@ namespace cds { namespace intrusive {
                 }
                 parrLock[0] = &(m_arrLocks[0]->at(nCell));
 
+                // The caller already holds the locks of another cell set, so blocking here
+                // can deadlock with a thread that locks the same cells in the opposite order
                 for ( unsigned int i = 1; i < c_nArity; ++i ) {
-                    parrLock[i] = &( m_arrLocks[i]->at( m_arrLocks[i]->lock( arrHash[i] & nMask)));
+                    nCell = m_arrLocks[i]->try_lock( arrHash[i] & nMask );
+                    if ( nCell == lock_array_type::c_nUnspecifiedCell ) {
+                        for ( unsigned int j = 0; j < i; ++j )
+                            parrLock[j]->unlock();
+                        m_Stat.onSecondCellLockFailed();
+                        return false;
+                    }
+                    parrLock[i] = &( m_arrLocks[i]->at( nCell ));
                 }
 
                 m_Stat.onSecondCellLock();
